@@ -180,7 +180,7 @@ CLAIMED = {
              "(block function, whole time axis, dropped axis, declared dtype). Counterexamples are replayed on the compiled code (joint vs alone, 1 vs 16 threads, threads "
              "racing through the real wrapper with a slow compile step, lazy vs eager under chunkings x schedulers).",
         note="PARTIAL: dask graph construction/execution, schedulers, chunking, apply_ufunc, Numba's threading layer / compile lock / parfor "
-             "lowering are NOT Python source of the repository and are outside (a seeded dask layer-name change is missed); cubes 2x2 px x 4 "
+             "lowering are NOT Python source of the repository and are outside (the NAMES of the explicit dask layers are the accessor's own code and are checked); cubes 2x2 px x 4 "
              "steps (thorough 3x1, 1x3, 5 steps). Trusted: pysym incl. its prange model, the schedule encoder, z3.",
         technique="symbolic execution with uninterpreted per-pixel kernels + z3 UF/LRA (2-run locality, race obligations from access logs); "
                   "symbolic-schedule bounded model checking of the lazycompile wrapper in z3 LIA", ref="5 C12"),
@@ -198,7 +198,7 @@ ADDED = {
     "C10": " mktrend accessor dispatch for any declared nodata incl. 0; the replayer has a ladder of integer series closest to the 5 % boundary.",
     "C11": " Every accessor attribute element-wise equal to the scalar class for any time of day; comparisons raise nothing.",
     "C14": " Observations of either sign in the grouped SPI driver (internal scratch cells), prange race obligations of the tyx driver.",
-    "C16": " The accessor hands zone rasters of every integer dtype to the kernel with values and zone nodata intact (symbolic over the dtype range).",
+    "C16": " The explicit dask graph of zonal.mean: block-call wiring and layer names that separate calls differing in zone raster / cube / dtype. The accessor hands zone rasters of every integer dtype to the kernel with values and zone nodata intact (symbolic over the dtype range).",
     "C17": " Explicit nodata argument wins over a different attribute (both symbolic); each window's term may mention only its own cells.",
     "C18": " croo with the time dimension in last / middle position.",
     "C19": " Histories on one object: an earlier aggregation, the axis relabelled in place, then the call under test.",
